@@ -451,3 +451,427 @@ theorem intOf_fracOf_length (b0 : List UInt8) : (intOf b0).length + (fracOf b0).
   simp only [List.length_append] at h1 h2
   unfold intOf fracOf
   omega
+
+-- ---------------------------------------------------------------- the grammar G
+/-- `D*` -/
+def AllDigits (ds : List UInt8) : Prop := ∀ c ∈ ds, isDigit c = true
+/-- `[+-]?` -/
+def IsSign (s : List UInt8) : Prop := s = [] ∨ s = [43] ∨ s = [45]
+/-- `(\. D*)?` -/
+def IsDotPart (p : List UInt8) : Prop := p = [] ∨ ∃ ds, AllDigits ds ∧ p = 46 :: ds
+/-- `([eE] [+-]? D*)?` -/
+def IsExpPart (p : List UInt8) : Prop :=
+  p = [] ∨ ∃ m s ds, (m = 101 ∨ m = 69) ∧ IsSign s ∧ AllDigits ds ∧ p = m :: (s ++ ds)
+/-- `G = [+-]? D* (\. D*)? ([eE] [+-]? D*)?` -/
+def InG (bs : List UInt8) : Prop :=
+  ∃ s i d x, IsSign s ∧ AllDigits i ∧ IsDotPart d ∧ IsExpPart x ∧ bs = s ++ i ++ d ++ x
+
+theorem signPart_isSign (bs : List UInt8) : IsSign (signPart bs) := by
+  unfold signPart IsSign
+  split <;> simp
+
+theorem dotPart_isDotPart (b1 : List UInt8) : IsDotPart (dotPart b1) := by
+  unfold dotPart
+  split
+  · exact Or.inr ⟨_, consumeDigits_digits _, rfl⟩
+  · exact Or.inl rfl
+
+theorem expPart_isExpPart (b2 : List UInt8) : IsExpPart (expPart b2) := by
+  unfold expPart
+  split
+  · exact Or.inr ⟨101, _, _, Or.inl rfl, signPart_isSign _, consumeDigits_digits _, rfl⟩
+  · exact Or.inr ⟨69, _, _, Or.inr rfl, signPart_isSign _, consumeDigits_digits _, rfl⟩
+  · exact Or.inl rfl
+
+/-- the bytes consumed by the body parser -/
+def consumedOf (bytes : List UInt8) : List UInt8 :=
+  signPart bytes ++ intOf (parseSign bytes).2 ++ dotPart (consumeDigits (parseSign bytes).2).2
+      ++ expPart (fracSplit (consumeDigits (parseSign bytes).2).2).2
+
+theorem consumedOf_append (bytes : List UInt8) :
+    consumedOf bytes ++ restOf (parseSign bytes).2 = bytes := decomposition bytes
+
+theorem consumedOf_inG (bytes : List UInt8) : InG (consumedOf bytes) :=
+  ⟨_, _, _, _, signPart_isSign _, consumeDigits_digits _, dotPart_isDotPart _, expPart_isExpPart _, rfl⟩
+
+theorem restOf_length_le (bytes : List UInt8) : (restOf (parseSign bytes).2).length ≤ bytes.length := by
+  have := congrArg List.length (consumedOf_append bytes)
+  simp only [List.length_append] at this; omega
+
+theorem eq_take_of_append {α : Type} (p r bs : List α) (h : p ++ r = bs) :
+    p = bs.take (bs.length - r.length) := by
+  subst h; simp
+
+theorem consumedOf_eq_take (bytes : List UInt8) :
+    consumedOf bytes = bytes.take (bytes.length - (restOf (parseSign bytes).2).length) :=
+  eq_take_of_append _ _ _ (consumedOf_append bytes)
+
+-- ---------------------------------------------------------------- maximal munch
+theorem fracSplit_snd_length (t : List UInt8) : (fracSplit t).2.length ≤ t.length := by
+  have := congrArg List.length (dotPart_append t)
+  simp only [List.length_append] at this; omega
+
+theorem expSplit_snd_length (t : List UInt8) : (expSplit t).2.length ≤ t.length := by
+  have := congrArg List.length (expPart_append t)
+  simp only [List.length_append] at this; omega
+
+theorem expTail_snd_length (t : List UInt8) : (expTail t).2.length ≤ t.length := by
+  have := congrArg List.length (expTailPart_append t)
+  simp only [List.length_append] at this; omega
+
+theorem digit_ne {c : UInt8} (h : isDigit c = true) : c ≠ 43 ∧ c ≠ 45 ∧ c ≠ 46 ∧ c ≠ 101 ∧ c ≠ 69 := by
+  refine ⟨?_, ?_, ?_, ?_, ?_⟩ <;> (rintro rfl; revert h; decide)
+
+theorem expTail_munch (s ds r : List UInt8) (hs : IsSign s) (hd : AllDigits ds) :
+    (expTail (s ++ ds ++ r)).2.length ≤ r.length := by
+  have key : (consumeDigits (ds ++ r)).2.length ≤ r.length := by
+    rw [consumeDigits_append_digits ds r hd]; exact consumeDigits_snd_length r
+  rcases hs with rfl | rfl | rfl
+  · cases ds with
+    | nil => simpa using expTail_snd_length r
+    | cons c ds' =>
+      have hc := digit_ne (hd c (by simp))
+      have : parseSign ([] ++ c :: ds' ++ r) = (true, c :: ds' ++ r) :=
+        parseSign_nosign _ (by simp [hc.1]) (by simp [hc.2.1])
+      unfold expTail; rw [this]; exact key
+  · unfold expTail
+    rw [show [43] ++ ds ++ r = 43 :: (ds ++ r) by simp, parseSign_plus]; exact key
+  · unfold expTail
+    rw [show [45] ++ ds ++ r = 45 :: (ds ++ r) by simp, parseSign_minus]; exact key
+
+theorem expSplit_munch (x r : List UInt8) (hx : IsExpPart x) :
+    (expSplit (x ++ r)).2.length ≤ r.length := by
+  rcases hx with rfl | ⟨m, s, ds, hm, hs, hd, rfl⟩
+  · simpa using expSplit_snd_length r
+  · have := expTail_munch s ds r hs hd
+    rcases hm with rfl | rfl
+    · rw [show 101 :: (s ++ ds) ++ r = 101 :: (s ++ ds ++ r) by simp, expSplit_e]; exact this
+    · rw [show 69 :: (s ++ ds) ++ r = 69 :: (s ++ ds ++ r) by simp, expSplit_E]; exact this
+
+/-- an exponent part (if non-empty) starts with a byte that is neither a digit, a dot nor a sign -/
+theorem expPart_head (x r : List UInt8) (hx : IsExpPart x) (hne : x ≠ []) :
+    ∃ m t, x ++ r = m :: t ∧ (m = 101 ∨ m = 69) := by
+  rcases hx with rfl | ⟨m, s, ds, hm, _, _, rfl⟩
+  · exact absurd rfl hne
+  · exact ⟨m, s ++ ds ++ r, by simp, hm⟩
+
+theorem exp_after_digits (x r : List UInt8) (hx : IsExpPart x) :
+    (expSplit (consumeDigits (x ++ r)).2).2.length ≤ r.length := by
+  by_cases hne : x = []
+  · subst hne
+    have h1 := expSplit_snd_length (consumeDigits r).2
+    have h2 := consumeDigits_snd_length r
+    simp only [List.nil_append]; omega
+  · obtain ⟨m, t, ht, hm⟩ := expPart_head x r hx hne
+    have : consumeDigits (x ++ r) = ([], x ++ r) := by
+      apply consumeDigits_nondigit
+      rw [ht]; rcases hm with rfl | rfl <;> simp <;> decide
+    rw [this]; exact expSplit_munch x r hx
+
+theorem exp_after_nodot (x r : List UInt8) (hx : IsExpPart x) :
+    (expSplit (fracSplit (x ++ r)).2).2.length ≤ r.length := by
+  by_cases hne : x = []
+  · subst hne
+    have h1 := expSplit_snd_length (fracSplit r).2
+    have h2 := fracSplit_snd_length r
+    simp only [List.nil_append]; omega
+  · obtain ⟨m, t, ht, hm⟩ := expPart_head x r hx hne
+    have : fracSplit (x ++ r) = ([], x ++ r) := by
+      apply fracSplit_nodot
+      rw [ht]; rcases hm with rfl | rfl <;> simp
+    rw [this]; exact expSplit_munch x r hx
+
+theorem frac_munch (d x r : List UInt8) (hd : IsDotPart d) (hx : IsExpPart x) :
+    (expSplit (fracSplit (d ++ x ++ r)).2).2.length ≤ r.length := by
+  rcases hd with rfl | ⟨ds, hds, rfl⟩
+  · simpa using exp_after_nodot x r hx
+  · rw [show 46 :: ds ++ x ++ r = 46 :: (ds ++ (x ++ r)) by simp, fracSplit_dot,
+      consumeDigits_append_digits ds _ hds]
+    exact exp_after_digits x r hx
+
+theorem body_munch (i d x r : List UInt8) (hi : AllDigits i) (hd : IsDotPart d) (hx : IsExpPart x) :
+    (restOf (i ++ d ++ x ++ r)).length ≤ r.length := by
+  unfold restOf
+  rw [show i ++ d ++ x ++ r = i ++ (d ++ x ++ r) by simp, consumeDigits_append_digits i _ hi]
+  simp only
+  rcases hd with rfl | ⟨ds, hds, rfl⟩
+  · by_cases hne : x = []
+    · subst hne
+      have h1 := expSplit_snd_length (fracSplit (consumeDigits r).2).2
+      have h2 := fracSplit_snd_length (consumeDigits r).2
+      have h3 := consumeDigits_snd_length r
+      simp only [List.nil_append]; omega
+    · obtain ⟨m, t, ht, hm⟩ := expPart_head x r hx hne
+      have : consumeDigits ([] ++ x ++ r) = ([], [] ++ x ++ r) := by
+        apply consumeDigits_nondigit
+        rw [List.nil_append, ht]; rcases hm with rfl | rfl <;> simp <;> decide
+      rw [this]; exact frac_munch [] x r (Or.inl rfl) hx
+  · have : consumeDigits (46 :: ds ++ x ++ r) = ([], 46 :: ds ++ x ++ r) := by
+      apply consumeDigits_nondigit; simp; decide
+    rw [this]; exact frac_munch (46 :: ds) x r (Or.inr ⟨ds, hds, rfl⟩) hx
+
+/-- maximal munch: every prefix of the input that is a word of `G` is at most as long as the
+    consumed prefix -/
+theorem munch_max (bytes q r : List UInt8) (h : bytes = q ++ r) (hq : InG q) :
+    (restOf (parseSign bytes).2).length ≤ r.length := by
+  obtain ⟨s, i, d, x, hs, hi, hd, hx, rfl⟩ := hq
+  subst h
+  rcases hs with rfl | rfl | rfl
+  · by_cases hh : ([] ++ i ++ d ++ x ++ r).head? = some 43 ∨ ([] ++ i ++ d ++ x ++ r).head? = some 45
+    · -- then the word is empty
+      have hi' : i = [] := by
+        cases i with
+        | nil => rfl
+        | cons c _ =>
+          have hc := digit_ne (hi c (by simp))
+          rcases hh with hh | hh <;> simp at hh <;> simp_all
+      subst hi'
+      have hd' : d = [] := by
+        rcases hd with rfl | ⟨ds, _, rfl⟩
+        · rfl
+        · rcases hh with hh | hh <;> simp at hh
+      subst hd'
+      have hx' : x = [] := by
+        rcases hx with rfl | ⟨m, s, ds, hm, _, _, rfl⟩
+        · rfl
+        · rcases hm with rfl | rfl <;> rcases hh with hh | hh <;> simp at hh
+      subst hx'
+      simpa using restOf_length_le r
+    · have hh1 : ([] ++ i ++ d ++ x ++ r).head? ≠ some 43 := fun h => hh (Or.inl h)
+      have hh2 : ([] ++ i ++ d ++ x ++ r).head? ≠ some 45 := fun h => hh (Or.inr h)
+      rw [parseSign_nosign _ hh1 hh2]
+      simpa using body_munch i d x r hi hd hx
+  · rw [show [43] ++ i ++ d ++ x ++ r = 43 :: (i ++ d ++ x ++ r) by simp, parseSign_plus]
+    exact body_munch i d x r hi hd hx
+  · rw [show [45] ++ i ++ d ++ x ++ r = 45 :: (i ++ d ++ x ++ r) by simp, parseSign_minus]
+    exact body_munch i d x r hi hd hx
+
+-- ---------------------------------------------------------------- case-insensitive prefix
+theorem xor_eq_32_iff (x y : UInt8) : x ^^^ y = 32 ↔ x = y ^^^ 32 := by
+  constructor
+  · intro h
+    have : x = (x ^^^ y) ^^^ y := by rw [UInt8.xor_assoc, UInt8.xor_self, UInt8.xor_zero]
+    rw [this, h, UInt8.xor_comm]
+  · rintro rfl
+    rw [UInt8.xor_comm y 32, UInt8.xor_assoc, UInt8.xor_self, UInt8.xor_zero]
+
+theorem ci_step (x y : UInt8) :
+    ((x ^^^ y != 0 && x ^^^ y != 32) = true) ↔ ¬ (x = y ∨ x = y ^^^ 32) := by
+  rw [← xor_eq_32_iff, ← UInt8.xor_eq_zero_iff (a := x) (b := y)]
+  simp
+
+theorem ciStartsWith_cons (x y : UInt8) (xs ys : List UInt8) :
+    ciStartsWith (x :: xs) (y :: ys) = true ↔ (x = y ∨ x = y ^^^ 32) ∧ ciStartsWith xs ys = true := by
+  have := ci_step x y
+  by_cases h : (x = y ∨ x = y ^^^ 32)
+  · have h' : ¬ ((x ^^^ y != 0 && x ^^^ y != 32) = true) := fun hc => (this.mp hc) h
+    simp only [ciStartsWith, h', Bool.false_eq_true, if_false, h, true_and]
+  · have h' := this.mpr h
+    simp only [ciStartsWith, h', if_true, h, false_and]
+    simp
+
+/-- `case_insensitive_starts_with`: every pattern byte is matched exactly or with bit 5 flipped -/
+theorem ciStartsWith_iff (b p : List UInt8) :
+    ciStartsWith b p = true ↔
+      p.length ≤ b.length ∧ ∀ i, (hi : i < p.length) → (hb : i < b.length) →
+        b[i] = p[i] ∨ b[i] = p[i] ^^^ 32 := by
+  induction p generalizing b with
+  | nil => simp [ciStartsWith]
+  | cons y ys ih =>
+    cases b with
+    | nil => simp [ciStartsWith]
+    | cons x xs =>
+      rw [ciStartsWith_cons, ih]
+      constructor
+      · rintro ⟨h0, hl, hr⟩
+        refine ⟨by simpa using hl, ?_⟩
+        intro i hi hb
+        cases i with
+        | zero => simp only [List.getElem_cons_zero]; exact h0
+        | succ i =>
+          simp only [List.getElem_cons_succ]
+          exact hr i (by simpa using hi) (by simpa using hb)
+      · rintro ⟨hl, hr⟩
+        have h0 := hr 0 (by simp) (by simp)
+        simp only [List.getElem_cons_zero] at h0
+        refine ⟨h0, by simpa using hl, ?_⟩
+        intro i hi hb
+        have := hr (i + 1) (by simpa using hi) (by simpa using hb)
+        simp only [List.getElem_cons_succ] at this
+        exact this
+
+/-- ASCII lower-casing (on byte values) -/
+def lowerNat (n : Nat) : Nat := if 65 ≤ n ∧ n ≤ 90 then n + 32 else n
+def asciiLower (c : UInt8) : Nat := lowerNat c.toNat
+def isLetterNat (n : Nat) : Bool := (decide (65 ≤ n) && decide (n ≤ 90)) || (decide (97 ≤ n) && decide (n ≤ 122))
+def isAsciiLetter (c : UInt8) : Bool := isLetterNat c.toNat
+
+def letterCheck : Bool :=
+  (List.range 256).all fun n => !isLetterNat n || (List.range 256).all fun m =>
+    (decide (m = n) || decide (m = n ^^^ 32)) == decide (lowerNat m = lowerNat n)
+theorem letterCheck_true : letterCheck = true := by decide +kernel
+theorem letter_match_nat (n : Nat) (hn : n < 256) (m : Nat) (hm : m < 256) (h : isLetterNat n = true) :
+    ((m = n ∨ m = n ^^^ 32) ↔ lowerNat m = lowerNat n) := by
+  have := letterCheck_true
+  unfold letterCheck at this
+  rw [List.all_eq_true] at this
+  have := this n (List.mem_range.mpr hn)
+  rw [h] at this
+  simp only [Bool.not_true, Bool.false_or, List.all_eq_true] at this
+  have := this m (List.mem_range.mpr hm)
+  simp only [beq_iff_eq] at this
+  rw [← Bool.decide_or] at this
+  exact decide_eq_decide.mp this
+
+theorem letter_match (y : UInt8) (hy : isAsciiLetter y = true) (x : UInt8) :
+    (x = y ∨ x = y ^^^ 32) ↔ asciiLower x = asciiLower y := by
+  have := letter_match_nat y.toNat y.toNat_lt x.toNat x.toNat_lt hy
+  rw [← UInt8.toNat_inj, ← UInt8.toNat_inj (b := y ^^^ 32), UInt8.toNat_xor]
+  exact this
+
+/-- for a pattern of ASCII letters, `ciStartsWith` is exactly case-insensitive prefix match -/
+theorem ciStartsWith_letters (b p : List UInt8) (hp : ∀ c ∈ p, isAsciiLetter c = true) :
+    ciStartsWith b p = true ↔
+      p.length ≤ b.length ∧ (b.take p.length).map asciiLower = p.map asciiLower := by
+  induction p generalizing b with
+  | nil => simp [ciStartsWith]
+  | cons y ys ih =>
+    cases b with
+    | nil => simp [ciStartsWith]
+    | cons x xs =>
+      have hy : isAsciiLetter y = true := hp y (by simp)
+      rw [ciStartsWith_cons, ih xs (fun c hc => hp c (by simp [hc])), letter_match y hy x]
+      simp only [List.length_cons, List.take_succ_cons, List.map_cons, List.cons.injEq,
+        Nat.add_le_add_iff_right]
+      tauto
+
+theorem ciStartsWith_length {b p : List UInt8} (h : ciStartsWith b p = true) :
+    p.length ≤ b.length := ((ciStartsWith_iff b p).mp h).1
+
+theorem sNaN_letters : ∀ c ∈ sNaN, isAsciiLetter c = true := by decide
+theorem sInfinity_letters : ∀ c ∈ sInfinity, isAsciiLetter c = true := by decide
+theorem sInf_letters : ∀ c ∈ sInf, isAsciiLetter c = true := by decide
+
+/-- "infinity" and "nan" cannot both match -/
+theorem not_nan_of_inf {b : List UInt8} (h : ciStartsWith b sInf = true) :
+    ciStartsWith b sNaN = false := by
+  cases b with
+  | nil => simp [ciStartsWith, sInf] at h
+  | cons x xs =>
+    rw [sInf, ciStartsWith_cons] at h
+    rw [Bool.eq_false_iff]
+    intro h'
+    rw [sNaN, ciStartsWith_cons] at h'
+    rcases h.1 with rfl | rfl <;> rcases h'.1 with h'' | h'' <;> revert h'' <;> decide
+
+/-- a match of "infinity" is a match of "inf" -/
+theorem inf_of_infinity {b : List UInt8} (h : ciStartsWith b sInfinity = true) :
+    ciStartsWith b sInf = true := by
+  rw [ciStartsWith_letters _ _ sInfinity_letters] at h
+  rw [ciStartsWith_letters _ _ sInf_letters]
+  obtain ⟨hl, hm⟩ := h
+  have hl' : 8 ≤ b.length := hl
+  refine ⟨by show 3 ≤ b.length; omega, ?_⟩
+  have := congrArg (List.take 3) hm
+  rw [← List.map_take, List.take_take] at this
+  exact this
+
+-- ---------------------------------------------------------------- `parse`
+def nanBits (F : FloatC) : Nat := F.exponentMask ||| (F.hiddenBitMask >>> 1)
+
+theorem parse_nan (E : Env) (F : FloatC) (bytes : List UInt8)
+    (h : ciStartsWith (parseSign bytes).2 sNaN = true) :
+    parse E F true bytes =
+      .ok (withSign F (parseSign bytes).1 (nanBits F)) ((parseSign bytes).2.length - 3) := by
+  simp only [parse, h, Bool.true_and, if_true, nanBits]
+
+theorem parse_infinity (E : Env) (F : FloatC) (bytes : List UInt8)
+    (h : ciStartsWith (parseSign bytes).2 sInfinity = true) :
+    parse E F true bytes =
+      .ok (withSign F (parseSign bytes).1 F.exponentMask) ((parseSign bytes).2.length - 8) := by
+  have hn := not_nan_of_inf (inf_of_infinity h)
+  simp only [parse, hn, h, Bool.true_and, Bool.false_eq_true, if_true, if_false]
+
+theorem parse_inf (E : Env) (F : FloatC) (bytes : List UInt8)
+    (h : ciStartsWith (parseSign bytes).2 sInf = true)
+    (h' : ciStartsWith (parseSign bytes).2 sInfinity = false) :
+    parse E F true bytes =
+      .ok (withSign F (parseSign bytes).1 F.exponentMask) ((parseSign bytes).2.length - 3) := by
+  have hn := not_nan_of_inf h
+  simp only [parse, hn, h, h', Bool.true_and, Bool.false_eq_true, if_true, if_false]
+
+theorem parse_noliteral (E : Env) (F : FloatC) (bytes : List UInt8)
+    (h : ciStartsWith (parseSign bytes).2 sInf = false)
+    (hn : ciStartsWith (parseSign bytes).2 sNaN = false) :
+    parse E F true bytes = parseBody E F true bytes.length (parseSign bytes).1 (parseSign bytes).2 := by
+  have h' : ciStartsWith (parseSign bytes).2 sInfinity = false := by
+    rw [Bool.eq_false_iff]; intro hc; rw [inf_of_infinity hc] at h; exact Bool.noConfusion h
+  simp only [parse, hn, h, h', Bool.true_and, Bool.false_eq_true, if_false]
+
+/-- the front-end never fails by itself: a panic is a panic of the library on the trimmed pieces -/
+theorem parse_panic (E : Env) (F : FloatC) (special : Bool) (bytes : List UInt8)
+    (h : parse E F special bytes = .panic) :
+    parseFloat E F (ltrimZero (intOf (parseSign bytes).2)) (rtrimZero (fracOf (parseSign bytes).2))
+      (expOf (parseSign bytes).2) = .panic := by
+  unfold parse at h
+  simp only at h
+  split at h
+  · exact Res.noConfusion h
+  split at h
+  · exact Res.noConfusion h
+  split at h
+  · exact Res.noConfusion h
+  rw [parseBody_eq] at h
+  split at h
+  · exact Res.noConfusion h
+  split at h
+  · assumption
+  · exact Res.noConfusion h
+
+/-- whenever the body is reached and yields a result, it is the library result with the sign -/
+theorem parseBody_ok {E : Env} {F : FloatC} {special : Bool} {startLen : Nat} {pos : Bool}
+    {b0 : List UInt8} {bits restLen : Nat}
+    (h : parseBody E F special startLen pos b0 = .ok bits restLen) :
+    restLen = (restOf b0).length ∧
+    ((special = true ∧ restLen = startLen ∧ bits = 0) ∨
+     ((special = false ∨ restLen ≠ startLen) ∧
+      ∃ b, parseFloat E F (ltrimZero (intOf b0)) (rtrimZero (fracOf b0)) (expOf b0) = .ok b ∧
+        bits = withSign F pos b)) := by
+  rw [parseBody_eq] at h
+  split at h
+  · rename_i hc
+    simp only [Bool.and_eq_true, beq_iff_eq] at hc
+    injection h with h1 h2
+    exact ⟨h2.symm, Or.inl ⟨hc.1, by omega, h1.symm⟩⟩
+  · rename_i hc
+    split at h
+    · exact Res.noConfusion h
+    · rename_i b hb
+      injection h with h1 h2
+      refine ⟨h2.symm, Or.inr ⟨?_, b, hb, h1.symm⟩⟩
+      cases special
+      · exact Or.inl rfl
+      · right; intro he; apply hc; simp only [Bool.true_and, beq_iff_eq]; omega
+
+theorem parse_body_reached (E : Env) (F : FloatC) (special : Bool) (bytes : List UInt8)
+    (h : special = false ∨ (ciStartsWith (parseSign bytes).2 sNaN = false ∧
+      ciStartsWith (parseSign bytes).2 sInf = false)) :
+    parse E F special bytes =
+      parseBody E F special bytes.length (parseSign bytes).1 (parseSign bytes).2 := by
+  rcases h with rfl | ⟨h1, h2⟩
+  · simp only [parse, Bool.false_and, Bool.false_eq_true, if_false]
+  · cases special
+    · simp only [parse, Bool.false_and, Bool.false_eq_true, if_false]
+    · exact parse_noliteral E F bytes h2 h1
+
+theorem withSign_split (F : FloatC) (pos : Bool) (b : Nat) (hb : b < F.signMask) :
+    withSign F pos b / F.signMask = (if pos then 0 else 1) ∧ withSign F pos b % F.signMask = b := by
+  have hpos : 0 < F.signMask := by omega
+  cases pos
+  · simp only [withSign, Bool.false_eq_true, if_false]
+    rw [Nat.add_div_right _ hpos, Nat.add_mod_right, Nat.div_eq_of_lt hb, Nat.mod_eq_of_lt hb]
+    exact ⟨rfl, rfl⟩
+  · simp only [withSign, if_true]
+    exact ⟨Nat.div_eq_of_lt hb, Nat.mod_eq_of_lt hb⟩
+
+end MinLex.Front
